@@ -78,6 +78,9 @@ func newC14Runner() *c14Runner {
 func (r *c14Runner) open() {
 	db, err := raftlog.Open(filepath.Join(r.dir, "raft"), raftlog.Options{
 		WriteBatchMaxWait: 300 * time.Microsecond,
+		// a small chunk size so that external snapshot payloads of 0, 1, k*16-1, k*16, k*16+1 bytes
+		// exercise zero / one / several / exactly-full chunk layouts
+		SnapshotChunkSize: 16,
 	})
 	if err != nil {
 		panic("open: " + err.Error())
@@ -554,6 +557,13 @@ type c14Shadow struct {
 	dead              bool // an invalid op was issued on this scope
 }
 
+// c14SnapData: payload sizes around the chunk boundaries (chunk size 16)
+func c14SnapData(g *Gen) []byte {
+	n := []int{0, 1, 2, 3, 4, 15, 16, 17, 31, 32, 33, 48}[g.R.Pick(3, 3, 2, 2, 2, 2, 4, 2, 1, 3, 1, 2)]
+	g.Count(fmt.Sprintf("snapshot-payload:%dB", n))
+	return g.R.Bytes(n)
+}
+
 func (s *c14Shadow) last() uint64 { return s.snapIdx + uint64(len(s.ents)) }
 
 func c14Has(xs []uint64, x uint64) bool {
@@ -774,7 +784,7 @@ func c14GenMutation(g *Gen, sh *c14Shadow, sc int, allowInvalid, safe bool) stri
 			idx := sh.snapIdx + 1 + uint64(g.R.Intn(int(sh.applied-sh.snapIdx)))
 			v, l := sh.confAt(idx)
 			term := sh.ents[idx-sh.snapIdx-1].term
-			data := g.R.Bytes(g.R.Range(0, 4))
+			data := c14SnapData(g)
 			sh.ents = append([]c14Ent(nil), sh.ents[idx-sh.snapIdx:]...)
 			sh.snapIdx, sh.snapTerm, sh.snapV, sh.snapL, sh.snapData = idx, term, v, l, data
 			hs := "-"
@@ -809,7 +819,7 @@ func c14GenMutation(g *Gen, sh *c14Shadow, sc int, allowInvalid, safe bool) stri
 			if g.R.Chance(10) {
 				v, l = nil, nil
 			}
-			data := g.R.Bytes(g.R.Range(0, 4))
+			data := c14SnapData(g)
 			sh.ents = nil
 			sh.snapIdx, sh.snapTerm, sh.snapV, sh.snapL, sh.snapData = idx, term, v, l, data
 			if sh.commit < idx {
@@ -845,7 +855,7 @@ func c14GenMutation(g *Gen, sh *c14Shadow, sc int, allowInvalid, safe bool) stri
 			if idx == sh.snapIdx {
 				v, l = sh.snapV, sh.snapL
 			}
-			data := g.R.Bytes(g.R.Range(0, 4))
+			data := c14SnapData(g)
 			sh.ents = append([]c14Ent(nil), sh.ents[idx-sh.snapIdx:]...)
 			sh.snapIdx, sh.snapTerm, sh.snapV, sh.snapL, sh.snapData = idx, term, v, l, data
 			if sh.commit < idx {
